@@ -442,4 +442,79 @@ def r10_6(ctx: Ctx) -> RuleResult:
     return r1_6(ctx, "R10.6")
 
 
-RULES = [r10_1, r10_2, r10_3, r10_4, r10_5, r10_6]
+NUMERIC_COMPONENTS = {"slice": ("start", "stop", "step")}
+
+
+def r10_7(ctx: Ctx) -> RuleResult:
+    """A numeric field is printed when it is present, not when it is truthy: 0 is
+    a value (`$[0::-1]` is not `$[::-1]`)."""
+    rr = RuleResult("R10.7", "numeric fields are tested with `is None`, never by truthiness, when printed", floor=2)
+    types = ctx.callgraph.types
+    for cls in printable_classes(ctx):
+        s = cls.methods.get("__str__")
+        if s is None:
+            continue
+        numeric_paths = set()
+        for f in _init_fields(ctx, cls):
+            t = types.field_type(cls, f)
+            if t is None:
+                continue
+            if t.names & {"int", "float"}:
+                numeric_paths.add(f"self.{f}")
+            for n_ in t.names:
+                for comp in NUMERIC_COMPONENTS.get(n_, ()):
+                    numeric_paths.add(f"self.{f}.{comp}")
+        if not numeric_paths:
+            continue
+        # truthiness contexts: operands of `or` / `and`, tests of if / IfExp / while, `not x`
+        contexts = []
+        for n in ast.walk(s.node):
+            if isinstance(n, ast.BoolOp):
+                contexts.extend(n.values[:-1] if isinstance(n.op, ast.Or) else n.values)
+            elif isinstance(n, (ast.If, ast.IfExp, ast.While)):
+                contexts.append(n.test)
+            elif isinstance(n, ast.UnaryOp) and isinstance(n.op, ast.Not):
+                contexts.append(n.operand)
+        bad = [c for c in contexts if path_of(c) in numeric_paths]
+        for c in bad:
+            rr.bad(s, c, f"`{short(c)}` is a number (or None) and is tested by truthiness while being printed: the "
+                   "value 0 is then printed like an omitted value, which means something else",
+                   construct=f"truthiness of {short(c)}")
+        if not bad:
+            rr.ok(s.loc(), f"{cls.name}.__str__: {sorted(numeric_paths)} are not tested by truthiness")
+    return rr
+
+
+def r10_8(ctx: Ctx) -> RuleResult:
+    """A logical expression printed outside the precedence-aware printer (as an
+    operand of a comparison, in an argument list) carries its own parentheses."""
+    rr = RuleResult("R10.8", "logical expressions print their own parentheses outside the canonical printer", floor=1)
+    infix = ctx.repo.require_class("InfixExpression")
+    s = infix.methods.get("__str__")
+    if s is None:
+        raise AnalysisError("InfixExpression.__str__ not found")
+    rets = [r for r in ast.walk(s.node) if isinstance(r, ast.Return)]
+    ok = False
+    for r in rets:
+        conds = path_conditions(s.node, r)
+        under_logical = any(path_of(t) == "self.logical" and b for t, b in conds)
+        v = r.value
+        paren = False
+        if isinstance(v, ast.JoinedStr) and v.values:
+            first, last = v.values[0], v.values[-1]
+            paren = (
+                isinstance(first, ast.Constant) and str(first.value).startswith("(")
+                and isinstance(last, ast.Constant) and str(last.value).endswith(")")
+            )
+        if paren and (under_logical or len(rets) == 1):
+            ok = True
+    if ok:
+        rr.ok(s.loc(), "InfixExpression.__str__ parenthesises a logical expression")
+    else:
+        rr.bad(s, s.node, "a `&&` / `||` expression printed through InfixExpression.__str__ (e.g. as an operand of a "
+               "comparison: `(@.a && @.b) == false`) has no parentheses of its own, so the text regroups as "
+               "`@.a && (@.b == false)`", construct="InfixExpression.__str__: logical without parentheses")
+    return rr
+
+
+RULES = [r10_1, r10_2, r10_3, r10_4, r10_5, r10_6, r10_7, r10_8]
